@@ -786,19 +786,25 @@ impl IRBuilder {
         pre_compute_schema: &[String],
     ) -> Result<IRNode, String> {
         let schema = input.output_schema();
+        // Variables bound so far: the pre-compute schema plus, progressively, every variable an
+        // earlier equality of this body has assigned (mirrors build_computed_columns). A second
+        // equality on an already assigned variable (`V = X - 2, V = 0`) is a filter.
+        let mut bound: Vec<String> = pre_compute_schema.to_vec();
 
         for pred in &rule.body {
             if let BodyPredicate::Comparison(left, op, right) = pred {
                 // Skip computed column assignments handled by build_computed_columns,
                 // but only if they were ACTUALLY processed (variable was new/unbound).
-                // Use the pre-compute schema to distinguish: if the variable was already
-                // bound BEFORE computed columns ran, it's a filter, not an assignment.
-                if Self::is_computed_column_assignment_in_schema(
-                    left,
-                    op,
-                    right,
-                    pre_compute_schema,
-                ) {
+                // Use the bound-variable list to distinguish: if the variable was already
+                // bound BEFORE this equality, it's a filter, not an assignment.
+                if Self::is_computed_column_assignment_in_schema(left, op, right, &bound) {
+                    for term in [left, right] {
+                        if let Term::Variable(v) = term {
+                            if !bound.contains(v) {
+                                bound.push(v.clone());
+                            }
+                        }
+                    }
                     continue;
                 }
 
